@@ -109,6 +109,9 @@ func (v *View) Send(msgs ...storage.Message) error {
 	}
 	out := v.board.append(msgs...)
 	copy(msgs, out) // like the file board, the caller's slice receives ids and offsets
+	if v.Hook != nil {
+		v.Hook("sent")
+	}
 	return nil
 }
 
